@@ -11,12 +11,17 @@ ID = "C01"
 # (planned: OdxVerif.Props.C01, theorems OdxVerif.Codec.C01_roundtrip[_partial], …)
 LEAN_TARGETS = ['OdxVerif.Props.C01']
 DRIVERS = ["drv_codec"]
-THEOREMS = ["OdxVerif.Codec." + t for t in ['C01_roundtrip_struct', 'C01_roundtrip_flat', 'C01_roundtrip_partial', 'C01_frame', 'tree_roundtrip', 'flat_core', 'Tree.encode_eq', 'Tree.decode_eq', 'Trees.good']]
+THEOREMS = ["OdxVerif.Codec." + t for t in ['C01_roundtrip_struct', 'C01_roundtrip_mux', 'C01_mux_default_key', 'MuxLeaf.encode_eq', 'MuxLeaf.decode_eq', 'C01_roundtrip_flat', 'C01_roundtrip_partial', 'C01_frame', 'tree_roundtrip', 'flat_core', 'Tree.encode_eq', 'Tree.decode_eq', 'Trees.good']]
 RULE = ("well-formed descriptions (envelope wf of DESIGN §6/C01, by construction in harness/odxgen/gen.py) x canonical values "
         "(odxgen/values.py): corpus of past failures; every BYTE-SIZE structure size x offset; every (integer type, encoding, byte order, "
         "bit length, bit position) standard-length DOP with boundary values; floats/strings/byte fields x encodings x byte orders; random "
         "composites (nesting <= 3 quick / <= 5 thorough, <= 4 units per composite, 30 % explicit BYTE-POSITION incl. permuted/gapped layouts and "
-        "bit-packed groups, 30 % BYTE-SIZE, 20 % end-of-PDU objects). distinct = distinct (description, value, trigger); non-trivial = the "
+        "bit-packed groups, 30 % BYTE-SIZE, 20 % end-of-PDU objects; mux cases / text-table scales in shuffled declaration order, default case "
+        "selected by name / None / free key, static fields with items of input-dependent size, length keys behind signed / LINEAR DOPs); "
+        "every declaration order of 2-3 mux cases x every way of selecting a case; layer level: generated layers of 2-4 services sharing "
+        "negative / positive / global negative responses, every own encoding (DiagService.encode_request, Response.encode with the coded "
+        "request) decoded by DiagService.decode_message, DiagLayer.decode and DiagLayer.decode_response and attributed to (service, coding "
+        "object) with exactly the encoded values. distinct = distinct (description, value, trigger); non-trivial = the "
         "encoder accepted and the PDU has more than one byte")
 TRUSTED = ["direct oracle harness/codec_oracles.py: decode(encode(v)) == complete(v) with `complete` (odxgen/values.py) written from the ODX "
            "semantics, not from the odxtools source; compu conversions are emulated exactly over Fraction",
